@@ -5,7 +5,7 @@ Trace == ndJsonDeserialize("trace.ndjson")
 VARIABLE l
 TInit == l = 0
 TNext == l < Len(Trace) /\ l' = l + 1 /\ UNCHANGED vars
-TSpec == TInit /\ muts = <<>> /\ entry = "data" /\ allow = FALSE /\ yaml = FALSE /\ [][TNext]_<<l, vars>>
+TSpec == TInit /\ muts = <<>> /\ entry = "data" /\ allow = FALSE /\ yaml = FALSE /\ base = FullBase /\ [][TNext]_<<l, vars>>
 
 LineOK(line) ==
    LET bad == Failed(line.obs) IN
